@@ -8,6 +8,7 @@ import (
 	"hash/fnv"
 	"os"
 	"path/filepath"
+	"runtime"
 	"sort"
 	"strconv"
 	"strings"
@@ -380,6 +381,20 @@ func handle(prop string, rec *Recorder, d *Disc) *Disc {
 	return d
 }
 
+// safely turns a panic raised by the code under test (or by the oracle) into
+// a discrepancy: a request or call that panics certainly did not behave as
+// the property demands.
+func safely(f func() *Disc) (d *Disc) {
+	defer func() {
+		if r := recover(); r != nil {
+			buf := make([]byte, 4096)
+			buf = buf[:runtime.Stack(buf, false)]
+			d = discf("panic: %v\n%s", r, buf)
+		}
+	}()
+	return f()
+}
+
 // Run executes the property: replay mode, then corpus, then rapid.
 func (p Prop[C]) Run(t *testing.T) {
 	part := p.Part
@@ -399,7 +414,7 @@ func (p Prop[C]) Run(t *testing.T) {
 			t.Fatalf("replay: %v", err)
 		}
 		rec.Case(c)
-		if d := handle(p.ID, rec, p.Check(c, rec)); d != nil {
+		if d := handle(p.ID, rec, safely(func() *Disc { return p.Check(c, rec) })); d != nil {
 			rec.violation++
 			reportViolation(p.ID, path, d)
 			t.FailNow()
@@ -419,7 +434,7 @@ func (p Prop[C]) Run(t *testing.T) {
 			}
 			rec.Case(c)
 			rec.Class("corpus")
-			if d := handle(p.ID, rec, p.Check(c, rec)); d != nil {
+			if d := handle(p.ID, rec, safely(func() *Disc { return p.Check(c, rec) })); d != nil {
 				rec.violation++
 				reportViolation(p.ID, f, d)
 				t.FailNow()
@@ -444,7 +459,7 @@ func (p Prop[C]) Run(t *testing.T) {
 		rec.mu.Lock()
 		rec.rapidRun++
 		rec.mu.Unlock()
-		if d := handle(p.ID, rec, p.Check(c, rec)); d != nil {
+		if d := handle(p.ID, rec, safely(func() *Disc { return p.Check(c, rec) })); d != nil {
 			cc := c
 			last, lastD = &cc, d
 			rt.Fatalf("%s", abbrev(d.Msg, 1500))
